@@ -31,7 +31,11 @@ def build(p):
         seen = {}
         vals = {}
 
+        none_job = p.get("none_job")      # the one job (if any) whose delegate callable returns None: a result like any other
+
         def job_of(res):
+            if res is None and none_job:
+                return none_job
             return getattr(res, "tag", (None, -1))[1] if isinstance(getattr(res, "tag", None), tuple) else -1
 
         def poll_fn(descriptors):
@@ -109,7 +113,7 @@ def build(p):
         def sub(j):
             jb = jobs[j - 1]
             E.vsleep(jb.get("S", 0))
-            script = [("F", "d%d" % j)] if jb.get("fail") else [("V", Val(("r", j)))]
+            script = [("F", "d%d" % j)] if jb.get("fail") else [("V", None if j == none_job else Val(("r", j)))]
             fn = H.Scripted(j, script, dur=0 if flavour == "manual" else jb["D"])
             fut = H.do_submit(ex, j, fn)
             if fut is not None and jb.get("K") is not None:
